@@ -59,7 +59,10 @@ func runPool(options Options) error {
 		if err != nil {
 			return err
 		}
-		badgerOpts := badger.DefaultOptions(dir)
+		// A crash (kill, power loss) in the middle of a write leaves the start
+		// of an entry at the end of the value log. It was never acknowledged;
+		// let badger cut it off instead of refusing to open the database.
+		badgerOpts := badger.DefaultOptions(dir).WithTruncate(true)
 		storeDriver, err = badgerStore.Open(badgerOpts)
 		if err != nil {
 			return err
